@@ -6,9 +6,8 @@
    MemoryStorage and RocksStorage on every run. Leader completeness under crash/restart over all
    schedules is proved on the abstract protocol in coq/RaftAbs by the raftabs group.
 
-   >>> PLACE FOR THE ABSTRACT-PROTOCOL THEOREMS (coq/RaftAbs): leader completeness with
-   >>> crash/restart from the persisted state. To be wired here by the coordinator. <<< *)
-From ZV Require Import Raft.Consts Raft.Model Raft.Proofs.
+   The abstract-protocol theorems (coq/RaftAbs) are stated at the end of this file. *)
+From ZV Require Import Raft.Consts Raft.Model Raft.Proofs Raft.ProofsLog Raft.ProofsStore.
 From Coq Require Import List NArith.
 Import ListNotations.
 Open Scope N_scope.
@@ -32,6 +31,112 @@ Theorem C03_memory_append_partial : forall s e0 r,
 Proof. exact ms_append_spec. Qed.
 Print Assumptions C03_memory_append_partial.
 
+(* (2) persisting the unstable entries and then stableTo(last index, last term), as processReady +
+       Advance do: Append succeeds, stableTo empties the unstable part, and every index of the log
+       holds the same entry as before — now read from the storage alone. What left the volatile
+       part is exactly what the storage holds. *)
+Theorem C03_persist_then_stable : forall l m off e0 r,
+  wf_mlog l m off -> u_snap (l_u l) = None -> u_ents (l_u l) = e0 :: r ->
+  exists m' le l2,
+    ms_append m (e0 :: r) = Ok m' /\ last_opt (e0 :: r) = Some le /\
+    l_stable_to (set_st l (SMem m')) (eindex le) (eterm le) = Ok l2 /\
+    wf_mlog l2 m' off /\ u_ents (l_u l2) = [] /\ u_off (l_u l2) = eindex le + 1 /\
+    mlast l2 m' off = mlast l m off /\
+    (forall i, off < i -> i <= mlast l m off -> log_entry (l_u l2) m' off i = log_entry (l_u l) m off i) /\
+    (forall i, off < i -> i <= mlast l m off -> nnth (i - off) (ms_ents m') = log_entry (l_u l) m off i).
+Proof. exact persist_then_stable. Qed.
+Print Assumptions C03_persist_then_stable.
+
+(* (3) restart: newLog over a well-formed storage gives a well-formed log with nothing unstable whose
+       entry at every index is the stored one; commit and applied cursors start at the dummy index
+       (the persisted commit index is then loaded by raft.loadState, applied by the application) *)
+Theorem C03_restart_reads_storage : forall m off mx, wf_ms m -> ms_offset m = Ok off ->
+  exists l, new_log (SMem m) mx = Ok l /\ wf_mlog l m off /\ l_committed l = off /\ l_applied l = off /\
+    u_ents (l_u l) = [] /\ u_snap (l_u l) = None /\
+    forall i, off < i -> log_entry (l_u l) m off i = nnth (i - off) (ms_ents m).
+Proof. exact new_log_wf. Qed.
+Print Assumptions C03_restart_reads_storage.
+
+(* (4) RocksStorage (the storage used in production, with cached firstIndex/lastIndex fields), for ALL
+       sequences of FirstIndex / LastIndex / Term / Entries / ApplySnapshot / CreateSnapshot / Compact /
+       Append (appends being contiguous batches): the key space stays strictly ordered and non-empty, a
+       cached first index is always (first key + 1), a cached last index is always the last key *)
+Theorem C03_rocks_cache_invariant : forall ops, Forall rop_ok ops -> rs_inv (fold_left rs_step ops rs_new).
+Proof. exact rs_cache_invariant. Qed.
+Print Assumptions C03_rocks_cache_invariant.
+
+(* (5) hence in every reachable state FirstIndex and LastIndex succeed and return the values
+       recomputed from the snapshot meta and the key space, whatever the caches hold *)
+Theorem C03_rocks_cached_indexes_correct : forall ops s, Forall rop_ok ops -> s = fold_left rs_step ops rs_new ->
+  (exists v s', rs_first_index s = Ok (v, s') /\ recomputed_first s = Some v) /\
+  (exists v s', rs_last_index s = Ok (v, s') /\ recomputed_last s = Some v).
+Proof. exact rs_cached_indexes_correct. Qed.
+Print Assumptions C03_rocks_cached_indexes_correct.
+
+
+(* ====================================================================================== *)
+(* The property over all schedules, on the abstract protocol of coq/RaftAbs (Model.v: per-node term /
+   vote / role / log / commit / configuration, the network as grant, ack and campaign records, crash and
+   restart from the persisted part, snapshots as compacted prefixes). "_fixed": every node keeps its
+   configuration (any voter list, any learner list) — no hypothesis. "_reconf_partial": arbitrary
+   configuration changes under the explicit hypothesis Overlap (any two voter lists a majority was
+   counted over have intersecting majorities). The tie to the Go code: every check run replays traces of
+   the real cluster through the extracted acceptor (RaftAbs/Acceptor.v, proved sound in
+   AcceptorSound.v): an accepted trace is a trace of this protocol. *)
+From ZV Require RaftAbs.Theorems.
+Module AM := ZV.RaftAbs.Model. Module AS := ZV.RaftAbs.Safety. Module AL := ZV.RaftAbs.ListFacts.
+Module AI := ZV.RaftAbs.Inv. Module AA := ZV.RaftAbs.Acceptor. Module AT := ZV.RaftAbs.Theorems.
+
+(* leader completeness: a prefix committed in term t is in the log of every leader of a later term *)
+Theorem C03_leader_completeness_fixed : forall (cf : AM.config) (log0 : list AM.entry), AM.init_ok cf log0 ->
+  forall s, AM.steps_fixed (AM.init cf log0) s ->
+  forall (t : nat) (P : list AM.entry) (u c : nat) el q,
+    AS.committed_in_term s t P -> In (u, c, el, q) (AM.leaders s) -> (t < u)%nat -> AL.prefix P el.
+Proof. exact AT.leader_completeness_fixed. Qed.
+Print Assumptions C03_leader_completeness_fixed.
+
+Theorem C03_leader_completeness_node_fixed : forall (cf : AM.config) (log0 : list AM.entry), AM.init_ok cf log0 ->
+  forall s, AM.steps_fixed (AM.init cf log0) s ->
+  forall (t : nat) (P : list AM.entry) (c : nat),
+    AS.committed_in_term s t P -> AM.rl (AM.nodes s c) = AM.Leader -> (t < AM.cur (AM.nodes s c))%nat ->
+    AL.prefix P (AM.log (AM.nodes s c)).
+Proof. exact AT.leader_completeness_node_fixed. Qed.
+Print Assumptions C03_leader_completeness_node_fixed.
+
+(* the committed log only grows along any continuation — crashes of any subset at any step and
+   restarts from the persisted part are steps of the protocol *)
+Theorem C03_committed_log_grows_fixed : forall (cf : AM.config) (log0 : list AM.entry), AM.init_ok cf log0 ->
+  forall s, AM.steps_fixed (AM.init cf log0) s ->
+  forall s', AM.steps_fixed s s' -> AL.prefix (AM.gcommit s) (AM.gcommit s').
+Proof. exact AT.committed_log_grows_fixed. Qed.
+Print Assumptions C03_committed_log_grows_fixed.
+
+Theorem C03_leader_completeness_reconf_partial : forall (cf : AM.config) (log0 : list AM.entry), AM.init_ok cf log0 ->
+  forall s, AM.reachable cf log0 s -> AI.Overlap s ->
+  forall (t : nat) (P : list AM.entry) (u c : nat) el q,
+    AS.committed_in_term s t P -> In (u, c, el, q) (AM.leaders s) -> (t < u)%nat -> AL.prefix P el.
+Proof. exact AT.leader_completeness_reconf_partial. Qed.
+Print Assumptions C03_leader_completeness_reconf_partial.
+
+(* a trace of the real cluster that the extracted acceptor accepts (and whose final state passes the
+   overlap test) ends in a state satisfying all invariants of the abstract protocol *)
+Theorem C03_accepted_trace_safe : forall (cf : AM.config) (log0 : list AM.entry) (ls : list AA.label) s,
+  AA.init_okb cf log0 = true -> AA.run (AM.init cf log0) ls = Some s -> AA.overlap_state s = true ->
+  AI.inv1 s /\ AI.inv2 s.
+Proof. exact AT.accepted_trace_safe. Qed.
+Print Assumptions C03_accepted_trace_safe.
+
+
+(* what remains unproved: leader completeness under arbitrary configuration changes without Overlap;
+   and the liveness half of the property text ("is eventually applied by every live replica"), which
+   is not a safety statement: what is proved is that the committed log only grows and that every later
+   leader holds it, i.e. no reachable state makes catching up impossible *)
+Definition C03_full : Prop :=
+  forall (cf : AM.config) (log0 : list AM.entry), AM.init_ok cf log0 ->
+  forall s, AM.reachable cf log0 s ->
+  forall (t : nat) (P : list AM.entry) (u c : nat) el q,
+    AS.committed_in_term s t P -> In (u, c, el, q) (AM.leaders s) -> (t < u)%nat -> AL.prefix P el.
+
 (* ---------- non-vacuity ---------- *)
 Example C03_ex_append_truncates :
   ms_append (mkMS 0 0 [mkE 0 0 0 0; mkE 1 1 5 9; mkE 1 2 6 9; mkE 1 3 7 9]) [mkE 2 2 8 9] =
@@ -46,3 +151,10 @@ Example C03_ex_rocks_apply_snapshot_keeps_tail :
   | Ok s => rs_db s = [mkE 4 2 0 0; mkE 1 3 7 9]
   | _ => False end.
 Proof. vm_compute. reflexivity. Qed.
+Example C03_ex_rocks_ops :
+  (* a reachable RocksStorage state with both caches filled, after append / compact / append *)
+  let ops := [RAppend [mkE 1 1 5 9; mkE 1 2 6 9; mkE 1 3 7 9]; RFirst; RLast; RCreateSnap 2; RCompact 2;
+              RAppend [mkE 2 3 8 9; mkE 2 4 9 9]; RLast] in
+  Forall rop_ok ops /\ rs_lc (fold_left rs_step ops rs_new) = 4 /\
+  recomputed_first (fold_left rs_step ops rs_new) = Some 3.
+Proof. split; [repeat constructor; vm_compute; repeat split|]. vm_compute. split; reflexivity. Qed.
